@@ -11,7 +11,7 @@ from .. import AnalysisError, AnchorMissing
 from ..cfg import cfg_of
 from ..model import own_nodes
 from ..values import pattern, match, find, contains, show, subterms
-from .base import obligation, src, callee_name
+from .base import obligation, src, callee_name, unweak
 from .C04 import pattern_term, returns, enclosing_loop, _inside
 
 GM = 'elfi.model.graphical_model:GraphicalModel'
@@ -320,6 +320,7 @@ def c14_d(ctx):
             for (t, pol, tast) in ctx.guards(f, r):
                 if not pol:
                     continue
+                t = unweak(t)    # only locates the guard; what it establishes is checked below
                 if contains(t, 'nx.ancestors(*_)') or contains(t, 'nx.descendants(*_)') or \
                         contains(t, 'nx.has_path(*_)'):
                     # must dominate the first mutation in this function
@@ -337,6 +338,33 @@ def c14_d(ctx):
               'no API on the become() path establishes that the replacement does not depend on '
               'the replaced node: a.become(descendant_of_a) silently creates a cycle',
               fn=found[0] if found else chain[-1], node=found[1] if found else chain[-1].node)
+    # where the guard is an ancestor test: at every mutation of the graph it is established that
+    # the replaced node is NOT an ancestor of the replacement (a raise under `A and B` or a
+    # negated membership does not establish it)
+    if found is not None and contains(found[2], 'nx.ancestors(*_)'):
+        f = found[0]
+        ex = ctx.ex(f)
+        muts = [c for c in ctx.calls(f) if callee_name(c) in
+                ('remove_node', 'add_node', 'add_edge', 'add_edges_from')]
+        np_, up_ = ('param', f.params[1]), ('param', f.params[2])
+        for c in muts[:1] + muts[-1:]:
+            st = c
+            while not isinstance(st, ast.stmt):
+                st = st._parent
+            facts = ctx.guards(f, st)
+            est = any((not pol) and match(t, pattern('_n in nx.ancestors(self.source_net, _u)'))
+                      is not None and
+                      match(t, pattern('_n in nx.ancestors(self.source_net, _u)'))['n'] == np_ and
+                      match(t, pattern('_n in nx.ancestors(self.source_net, _u)'))['u'] == up_
+                      for (t, pol, _) in facts)
+            same = any((not pol) and match(t, pattern('_a == _b')) is not None and
+                       {match(t, pattern('_a == _b'))['a'], match(t, pattern('_a == _b'))['b']}
+                       == {np_, up_} for (t, pol, _) in facts)
+            ctx.check(est and same, f, 'graph touched only when the replaced node is neither the '
+                      'replacement nor one of its ancestors',
+                      'not (node == updating_node or node in ancestors(updating_node))',
+                      'at `{}` it is not established that the replaced node is not an ancestor '
+                      'of (or equal to) the replacement'.format(src(c)[:50]), fn=f, node=c)
     # become: same model required, names passed as (kept, replacement)
     be = chain[0]
     ex = ctx.ex(be)
